@@ -377,9 +377,18 @@ check("C03", "bpfvm",
       "Strictest 'fits W' reading; generator crashes (AssertionError etc.) "
       "count as violations, deliberate refusals do not. One known finding "
       "(narrow signed right operand zero-extended, pinned by the goldens).")
-check("C15", "vloop+bussim+explore",
+check("C15", "vloop+bussim+explore+simos",
       "stateless deviation-bounded DFS over task interleavings on the real "
       "mailbox code against a CoE server model",
+      "Cross-process half: 2-3 processes under the simos baton scheduler "
+      "run the unmodified LockFile.__init__ (directly and via pickle), "
+      "get_mbx_lock, ParallelMailboxLock and the real Terminal.sdo_read / "
+      "sdo_write / read_object_entry against one shared terminal + SDO "
+      "server; every file/lockf operation of ebpfcat.lock and every "
+      "datagram is a scheduling point; lock file absent (creation window) "
+      "or left with counter 6/7 (wrap); quick: complete for 2 processes x 1 "
+      "exchange, thorough: 2 x 2 exchanges complete, 3 processes complete / "
+      "preemption-bounded, one crash (52k states). "
       "In-process half: multisets of 2-3 tasks (1-2 exchanges each from "
       "sdo_read, sdo_write, read_object_entry) on one Terminal with the real "
       "MailboxLock, warm-up exchanges so that the counter wraps; explorer "
@@ -389,9 +398,10 @@ check("C15", "vloop+bussim+explore",
       "follow the successor chain 1..7 (first may be 0), no request is "
       "written while another user's exchange is open, each user gets its own "
       "result.",
-      "The cross-process half (LockFile / ParallelMailboxLock over the "
-      "simulated POSIX layer) is covered separately when present; see "
-      "DESIGN.md section 8.")
+      "Two tasks of one process together with a second process in a single "
+      "run are not modelled (the same-process case is covered in-process, "
+      "with MailboxLock and ParallelMailboxLock). lockf/open/pread/pwrite "
+      "are atomic steps.")
 check("C16", "vloop+bussim",
       "exhaustive enumeration of value lengths x mailbox sizes x transfer "
       "kinds against an ETG.1000.6 SDO server model, bounded deviations",
